@@ -32,7 +32,7 @@ def _root(**r):
 
 END_SCRIPT = rig.s2b("</script>")
 END_SCRIPT_SP = rig.s2b("</script ")
-PROPOSED_KNOWN = [
+_PROPOSED_BY_THE_BUILD = [
     # -- lexer design limitations named in DESIGN 9 #10 (root cause = what the two machines are in after the breaking edge)
     _k("lexer.scan does not know JavaScript regular-expression literals: after `/` where a regex may start (also `</` in code) it stays in JS code, so quotes, `/` and `[` inside the literal desynchronise it and values shown there are written as quoted strings",
        root=_root(to="js-regex")),
@@ -536,3 +536,7 @@ def run_cases(ctx, ccases, replaying=False):
 def replay(ctx, path):
     c = json.loads((path / "case.json").read_text())
     return run(ctx, only_case=c)
+
+
+# the findings of this check are in known-findings.json (kind "known" / "fixed"); _PROPOSED_BY_THE_BUILD documents the original list
+PROPOSED_KNOWN = []
